@@ -123,3 +123,32 @@ Definition violations (cs : list case_t) : list nat := find_idx violates cs.
 Definition model_dump (c : case_t) :=
   let '(st, sres) := model_state c in
   (sres, chan_layout (s_db st) (k_key c), truth c, model_obs c).
+
+(* ---- diagnosis: which clause fails at which command (for replays and tags) ---- *)
+(* codes: 1 value <> samples of view, 2 a series not inside the view / not its own samples,
+   3 series out of order, 4 Valid flag, 5 view outside bounds, 6 adjacency, 7 traversal *)
+Definition exact_codes (tru : assoc) (o : obs) : list Z :=
+  (if list_eqb Z.eqb (frame_data (o_frame o)) (read_spec tru (o_view o)) then [] else [1]) ++
+  (if forallb (fun s => contains_range (o_view o) (sr_tr s) &&
+                    list_eqb Z.eqb (sr_data s) (read_spec tru (sr_tr s))) (o_frame o) then [] else [2]) ++
+  (if series_ordered (o_frame o) then [] else [3]) ++
+  (if Bool.eqb (o_valid o) (negb (match frame_data (o_frame o) with [] => true | _ => false end) && (o_err o =? 0)) then [] else [4]).
+
+Fixpoint diag_trace (tru : assoc) (b : tr) (prev : option (cmd * obs)) (l : list (cmd * obs)) (n : Z)
+  : list (Z * list Z) :=
+  match l with
+  | [] => []
+  | (c, o) :: r =>
+      let b' := match c with SetBounds nb => nb | _ => b end in
+      let codes :=
+        exact_codes tru o ++
+        (if within_ok b' c o then [] else [5]) ++
+        (match prev with Some (c0, o0) => if adjacent_ok c0 c o0 o then [] else [6] | None => [] end) ++
+        (match c with
+         | SeekFirst => if trav_fwd tru b' r [] then [] else [7]
+         | SeekLast => if trav_bwd tru b' r [] then [] else [7]
+         | _ => [] end) in
+      (match codes with [] => [] | _ => [(n, codes)] end) ++ diag_trace tru b' (Some (c, o)) r (n + 1)
+  end.
+Definition diagnose (c : case_t) : list (Z * list Z) :=
+  diag_trace (truth c) (k_bounds c) None (combine (k_cmds c) (k_obs c)) 0.
